@@ -136,7 +136,8 @@ static void run_cmd (const Cmd *cm) {
 	} else if (!strcmp (op, "accept")) {
 		sk[h] = p_socket_accept (sk[cm->a], &err); ok = sk[h] != NULL;
 		if (ok) { int fl = fcntl (p_socket_get_fd (sk[h]), F_GETFD); PSocketAddress *ra; cloexec = (fl != -1 && (fl & FD_CLOEXEC)) ? 1 : 0; sfam[h] = sfam[cm->a]; tx_off[h] = rx_off[h] = 0; sport[h] = -1;
-			  if ((ra = p_socket_get_remote_address (sk[h], NULL)) != NULL) { from = port_owner (p_socket_address_get_port (ra)); p_socket_address_free (ra); } }
+			  if ((ra = p_socket_get_remote_address (sk[h], NULL)) != NULL) { pchar *as = p_socket_address_get_address (ra); from = port_owner (p_socket_address_get_port (ra));
+				  if (!as || strcmp (as, sfam[h] == 6 ? "::1" : "127.0.0.1")) from = -1; p_free (as); p_socket_address_free (ra); } }
 	} else if (!strcmp (op, "send")) {
 		int n = cm->a, i; char *buf = malloc (n ? n : 1);
 		off = tx_off[h];
@@ -162,7 +163,10 @@ static void run_cmd (const Cmd *cm) {
 		int n = cm->a, i; char *buf = malloc (n + 4); PSocketAddress *ra = NULL;
 		res = (long) p_socket_receive_from (sk[h], &ra, buf, (psize) n, &err); ok = res >= 0;
 		if (res >= 2) { id = ((unsigned char) buf[0] << 8) | (unsigned char) buf[1]; for (i = 2; i < res; i++) if ((unsigned char) buf[i] != fbyte (id * 31 + i)) dataok = 0; }
-		if (ra) { from = port_owner (p_socket_address_get_port (ra)); p_socket_address_free (ra); }
+		if (ra) { pchar *as = p_socket_address_get_address (ra);        /* the sender is identified by its whole address: family, host part and port */
+			  from = port_owner (p_socket_address_get_port (ra));
+			  if (!as || strcmp (as, sfam[h] == 6 ? "::1" : "127.0.0.1") || p_socket_address_get_family (ra) != (sfam[h] == 6 ? P_SOCKET_FAMILY_INET6 : P_SOCKET_FAMILY_INET)) from = -1;
+			  p_free (as); p_socket_address_free (ra); }
 		free (buf);
 	} else if (!strcmp (op, "set")) {
 		if (!strcmp (cm->sarg, "blocking")) p_socket_set_blocking (sk[h], cm->a ? TRUE : FALSE);
